@@ -61,10 +61,13 @@ def params(S, tag, ftype, T=None):
 def build(S, ax, plist, values=None):
     ci = S.ex.repo.cls(CF + "CorrelationFunction")
     arg = plist[0] if (len(plist) == 1 and plist[0].get("__single__", True) and not plist[0].get("__aslist__")) else plist
+    def strip(d):
+        # the caller's own dictionary object is handed over whenever it carries no set-up marker (aliasing matters)
+        return d if not any(k.startswith("__") for k in d) else {k: v for k, v in d.items() if not k.startswith("__")}
     if isinstance(arg, dict):
-        arg = {k: v for k, v in arg.items() if not k.startswith("__")}
+        arg = strip(arg)
     else:
-        arg = [{k: v for k, v in p.items() if not k.startswith("__")} for p in arg]
+        arg = [strip(p) for p in arg]
     kw = {"values": values} if values is not None else {}
     return S.ex.instantiate(ci, [ax, arg], kw)
 
@@ -201,6 +204,37 @@ def lemma_addition(ctx):
     return obs
 
 
+def lemma_parameters_kept(ctx):
+    """the stored component parameters are copies of what the caller supplied, with every optional key (here an explicit
+    number of Matsubara terms, different from the default) kept, so that a function rebuilt from its stored parameters
+    (left operand of +, += of a function to itself) is the same function"""
+    obs = []
+    for nm in (3, 12):
+        def setup(S, nm=nm):
+            m, ax, n = world(S)
+            T = S.real("T")
+            p1 = dict(params(S, "1", TYPES[0], T), matsubara=nm)
+            p2 = params(S, "2", TYPES[0], T)
+            for p in (p1, p2):
+                S.ex.assume(z3.And(p["cortime"] > 0, T > 0))
+            a, b = build(S, ax, [p1]), build(S, ax, [p2])
+            s = S.ex.call_method(a, "__add__", [b], {})
+            s2 = S.ex.call_method(b, "__add__", [a], {})
+            a2 = build(S, ax, [dict(p1)])
+            S.ex.call_method(a2, "__iadd__", [a2], {})
+            return dict(s=s, s2=s2, a=a, b=b, a2=a2, p1=p1, p2=p2, N=n, nm=nm)
+        obs += clause_lemma(ctx, "explicit-matsubara-%d" % nm, setup, ["N >= 1"],
+                            [("data-add", DATA2), ("data-add-other-order", DATA2.replace("s.data", "s2.data")),
+                             ("reorganisation-energies-add", "s.lamb == a.lamb + b.lamb"),
+                             ("in-place-self-addition-doubles", "forall(i, range(0, N), a2.data[i] == 2*a.data[i])"),
+                             ("stored-parameters-are-copies", "a.params[0] is not p1 and b.params[0] is not p2"),
+                             ("optional-keys-kept", "a.params[0]['matsubara'] == nm and s.params[0]['matsubara'] == nm "
+                                                    "and s2.params[1]['matsubara'] == nm"),
+                             ("callers-dictionaries-untouched", "p1['matsubara'] == nm and len(p1) == 5 and len(p2) == 4")],
+                            where="props/C09.py: components with an explicit number of Matsubara terms (real code)")
+    return obs
+
+
 def contracts(reg):
     """refusals as contracts on the operators"""
     def setup_add(S, same_T, same_axis=True):
@@ -304,7 +338,7 @@ def plan(ctx):
     p.functions.append(CF + "CorrelationFunction.measure_reorganization_energy")
     p.functions += [SD + ".__add__#inside-any-units-context", SD + ".add_to_data2#a-function-added-to-itself",
                     SD + ".measure_reorganization_energy"]
-    p.lemmas = [lemma_constructor_linear, lemma_three_components, lemma_addition]
+    p.lemmas = [lemma_constructor_linear, lemma_three_components, lemma_addition, lemma_parameters_kept]
     p.oracles = ["native/oracle_C09.py"]
     p.trusted = ["numpy.exp / numpy.tan are (uninterpreted) functions: equal arguments give equal values",
                  "internal energy units are current while the functions are built (unit conversions: C05)"]
